@@ -134,6 +134,7 @@ def gen_case(rng, big=False, kind=None):
     m = n + extra
     T = gen_table(rng, m, kind) if m > 0 else np.zeros((0, 0), dtype=np.int64)
     table = [[int(x) for x in row] for row in T[:n]]
+    full = [[int(x) for x in row] for row in T] if extra else None   # rows of the off-data ids too
     # init centers
     r = rng.random()
     init = None
@@ -183,8 +184,32 @@ def gen_case(rng, big=False, kind=None):
         ncl = int(rng.integers(0, n + 3))
     tri = bool(rng.random() < 0.5)
     rf = bool(rng.random() < 0.02)
-    return {'kind': kind, 'n': n, 'table': table, 'n_clusters': ncl, 'cutoff': cutoff,
+    return {'kind': kind, 'n': n, 'table': table, 'full': full, 'n_clusters': ncl, 'cutoff': cutoff,
             'init': init, 'tri': tri, 'random_first': rf, 'via': 'function', 'metric': 'table'}
+
+
+def gen_offdata_case(rng):
+    """true metric on n + extra points; the data are the first n, at least one supplied center is not"""
+    kind = ['graph', 'grid', 'line'][int(rng.integers(0, 3))]
+    n = int(rng.integers(2, 8))
+    extra = int(rng.integers(1, 3))
+    m = n + extra
+    T = gen_table(rng, m, kind)
+    k0 = int(rng.integers(1, 3))
+    init = [int(rng.integers(n, m))]
+    while len(init) < k0:
+        c = int(rng.integers(0, m))
+        if c not in init:
+            init.append(c)
+    init = [int(x) for x in rng.permutation(init)]
+    r = rng.random()
+    ncl = OMIT if r < 0.2 else int(rng.integers(1, n + 3))
+    r = rng.random()
+    cutoff = OMIT if (r < 0.5 and ncl != OMIT) else [int(rng.integers(0, 5)), 2]
+    return {'kind': 'offdata-' + kind, 'n': n, 'table': [[int(x) for x in row] for row in T[:n]],
+            'full': [[int(x) for x in row] for row in T], 'n_clusters': ncl, 'cutoff': cutoff,
+            'init': init, 'tri': bool(rng.random() < 0.5), 'random_first': False, 'via': 'function',
+            'metric': 'table'}
 
 
 def gen_kernel_case(rng):
@@ -225,7 +250,10 @@ def real_run(case, tri=None, via=None):
     tri = case['tri'] if tri is None else tri
     via = via or case.get('via', 'function')
     if case['metric'] == 'table':
-        T = np.array(case['table'], dtype=float).reshape(n, -1) if n else np.zeros((0, 0))
+        # rows of ids outside the data exist only for the off-data generator (the code as it is never asks
+        # for them: it measures frames against centers, never a supplied center against something)
+        T = (np.array(case['full'], dtype=float) if case.get('full')
+             else np.array(case['table'], dtype=float).reshape(n, -1) if n else np.zeros((0, 0)))
         X = np.arange(n, dtype=float).reshape(n, 1)
         limit = [0, 6 * (n + len(case['init'] or [])) + 60]
 
@@ -518,6 +546,18 @@ def process(ctx, case, model=None):
         ctx.tag('true-metric')
     if not check_predicates(ctx, case, rows, real['ok'], metric_tri, sep_ok):
         return
+    # supplied centers that are not frames of the data (a true metric on all ids in play)
+    init = case['init']
+    if (init and any(c >= n for c in init) and len(set(init)) == len(init) and case['via'] == 'function'
+            and case.get('full') and is_metric(case['full'])
+            and separated(case['full'], sorted(set(range(n)) | set(init)))):
+        other = real_run(case, tri=not case['tri'])
+        ctx.tag('shortcut-vs-plain(off-data init)')
+        if other != real:
+            ctx.violation('triangle-inequality shortcut and plain algorithm return different results when a '
+                          'supplied initial center is not a frame of the data', dict(case),
+                          key='shortcut-offdata-init')
+        return
     # model trace against the replayed radii is implied by the equalities above; shortcut vs plain:
     if metric_tri and case['via'] == 'function':
         other = real_run(case, tri=not case['tri'])
@@ -553,6 +593,13 @@ def run(ctx):
             c['cutoff'] = None
         c['via'] = 'class'
         cases.append(c)
+    cases += [gen_offdata_case(rng) for _ in range(ctx.n(120, 1500))]
+    # the witness of known finding shortcut-offdata-init (Props/C02.lean, lineOff)
+    posoff = (0, 1, 3, 2)
+    toff = [[abs(a - b) for b in posoff] for a in posoff]
+    cases.append({'kind': 'offdata-witness', 'n': 3, 'table': toff[:3], 'full': toff, 'n_clusters': 4,
+                  'cutoff': OMIT, 'init': [3], 'tri': True, 'random_first': False, 'via': 'function',
+                  'metric': 'table'})
     # fixed edge cases
     line5 = [[abs(a - b) for b in (0, 1, 2, 3, 4)] for a in (0, 4, 1, 3, 2)]
     pts = (0, 4, 1, 3, 2)
@@ -596,6 +643,6 @@ def norm_scope(ctx):
 
 def replay(ctx, data):
     quiet()
-    case = {k: data[k] for k in data if k in ('kind', 'n', 'table', 'points', 'dtype', 'metric', 'n_clusters',
-                                              'cutoff', 'init', 'tri', 'random_first', 'via')}
+    case = {k: data[k] for k in data if k in ('kind', 'n', 'table', 'full', 'points', 'dtype', 'metric',
+                                              'n_clusters', 'cutoff', 'init', 'tri', 'random_first', 'via')}
     process(ctx, case)
